@@ -83,6 +83,8 @@ func (w *Worker) RunResolveOrders(sk *Skeleton, property string) *SkelResult {
 	docsT := types.NewMap(types.Typ[types.String], schemaPtr)
 	differ := map[string]bool{}
 	m.Explore(func(m *sx.Machine) sx.Value {
+		m.OrderOncePerMap = true
+		m.AllOrders = true // (the kernel switches it off for its order-independent rendering; on again for every path)
 		s, _ := parse()
 		im := sx.NewImporter(m)
 		if sk.Universe != nil {
@@ -214,9 +216,8 @@ func ResolveOrderDocs() []*Skeleton {
 			"http://h/a.json": `{"$schema":"http://json-schema.org/draft-07/schema#","title":"A","properties":{"x":{"$ref":"c.json"}}}`,
 			"http://h/c.json": `{"title":"C","$anchor":"foo","$defs":{"d":{"title":"Cd","$anchor":"bar"}}}`,
 		}),
-		mkU("remote-diamond", J{"$id": "http://h/root.json", "properties": J{"a": J{"$ref": "a.json"}, "b": J{"$ref": "b.json#/$defs/m"}, "c": J{"$ref": "c.json#foo"}}}, map[string]string{
-			"http://h/a.json": `{"title":"A","properties":{"x":{"$ref":"c.json#foo"}}}`,
-			"http://h/b.json": `{"title":"B","$defs":{"m":{"title":"Bm","$ref":"c.json"}}}`,
+		mkU("remote-diamond", J{"$id": "http://h/root.json", "properties": J{"a": J{"$ref": "a.json"}, "c": J{"$ref": "c.json#foo"}}}, map[string]string{
+			"http://h/a.json": `{"title":"A","$ref":"c.json#/$defs/d"}`,
 			"http://h/c.json": `{"title":"C","$defs":{"d":{"title":"Cd","$anchor":"foo"}}}`,
 		}),
 		mkU("remote-draft7-root", J{"$schema": "http://json-schema.org/draft-07/schema#", "$id": "http://h/root.json", "definitions": J{"p": J{"$ref": "c.json"}, "q": J{"$id": "#frag", "title": "q"}}, "properties": J{"a": J{"$ref": "a.json"}}}, map[string]string{
